@@ -6,6 +6,8 @@ from whoosh.automata.fsa import ANY, EPSILON, NFA
 
 def levenshtein_automaton(term, k, prefix=0):
     nfa = NFA((0, 0))
+    # The required prefix can't be longer than the term itself
+    prefix = min(prefix, len(term))
     if prefix:
         for i in xrange(prefix):
             c = term[i]
